@@ -12,6 +12,8 @@ the same environment; (ORDER) nodes are generated along self._ordering = topolog
 stream - used by drf.predict(functional='sample') - reseeded with random_state under `is not None`
 before any forest draw; (CONTRACT) one guard per documented TypeError / ValueError clause of
 BayesianNetwork.__init__ / .sample, and DRFNet delegates to them first.
+Also decided: one forest object per (node, environment) slot; in drf.predict('sample') the drawn id, its population, its weights
+row and the training row read back agree; the acyclicity core of C03 for the 'graph is not a DAG' clause.
 Not decided: that the R forest's weights are meaningful (external).
 """
 from .common import *
